@@ -12,7 +12,7 @@ import re
 from rulesem import check as rc
 from rulesem.alg import parse, is_var, Malformed
 from rules.c01 import run_rules, UNOBSERVABLE, UNCLASSIFIED
-from tmpl import site
+from tmpl import site, origin_locals_indexed
 
 BUILD = 'executor::Builder::<S>::build_id_subscriber'
 JOIN_OPS = {'join': 'Join', 'hashjoin': 'HashJoin', 'mergejoin': 'MergeJoin'}
@@ -304,3 +304,34 @@ def run(ctx):
                 continue
             ctx.ob(R2, f'rule={name}' + (f'·{key}' if key else ''), False, f'{name} ({loc}): {cex["problem"]} on {cex["inst"]}', [loc],
                    what=f'rule `{name}` builds an ill-formed plan: {cex["problem"][:160]}')
+    subquery_clauses(ctx, prog)
+
+
+def subquery_clauses(ctx, prog):
+    """C17-R3: sub-query expressions never reach the executor"""
+    R3 = 'C17-R3'
+    ctx.rule(R3, 'bind_expr creates sub-query expression nodes (Max1Row, In, Exists) in any clause, and the executor can not evaluate them; '
+                 'so in bind_select the expressions of every clause (select list, WHERE, GROUP BY, HAVING, ORDER BY, DISTINCT ON) either '
+                 'go through plan_apply (which turns the sub-queries into Apply nodes for the optimizer to unnest) or through the '
+                 'contains_subquery rejection before they are put into a plan node')
+    b = next((x for n, x in prog.bodies.items() if n.endswith('::bind_select') and 'binder::select' in n), None)
+    if not ctx.anchor(R3, 'binder::select::bind_select', b is not None):
+        return
+    ctx.functions_analysed.add(b.name)
+    PRODUCERS = ('bind_projection', 'bind_where', 'bind_groupby', 'bind_having', 'bind_orderby', 'bind_exprs')
+    prods = [c for c in b.calls if (c.fn or '').rsplit('::', 1)[-1] in PRODUCERS]
+    guards = [c for c in b.calls if (c.fn or '').rsplit('::', 1)[-1] in ('plan_apply', 'contains_subquery')]
+    ctx.floor(R3, len(prods), 5, 'clause binders called by bind_select')
+    covered = set()
+    for g in guards:
+        for a in g.args[1:2]:
+            if a['k'] != 'const':
+                covered |= origin_locals_indexed(b, a["pl"]["l"], depth=40)
+    for c in prods:
+        clause = c.fn.rsplit('::', 1)[-1]
+        ok = c.dest['l'] in covered
+        ctx.ob(R3, f'bind_select·{clause}·subqueries-handled', ok,
+               f'the expressions bound by {clause} ' + ('reach plan_apply / contains_subquery' if ok else
+                                                          'go into the plan without plan_apply or a rejection'), [site(b, c.bb)],
+               what=f'a sub-query in the clause bound by {clause} is accepted and reaches the executor builder, which panics '
+                    '(`select a, (select max(c) from u) from t`: column $1.0 not found from input)')
